@@ -5,10 +5,14 @@ package client
 import (
 	"context"
 	"errors"
+	"io"
+	"time"
 
 	goatorepo "github.com/avos-io/goat/gen/goatorepo"
+	"github.com/avos-io/goat/gen/testproto"
 )
 
+// H_C09_unary_race: smallest form of the check-then-register window.
 func H_C09_unary_race() {
 	conn := newZZConn()
 	rm := NewRpcMultiplexer(conn)
@@ -17,9 +21,7 @@ func H_C09_unary_race() {
 	var err error
 	var res *goatorepo.Body
 	go func() {
-		res, err = rm.CallUnaryMethod(context.Background(),
-			&goatorepo.RequestHeader{Method: "/s/m", Source: "c", Destination: "s"},
-			&goatorepo.Body{Data: []byte{1}}, nil)
+		res, err = rm.CallUnaryMethod(context.Background(), zzHdr(), &goatorepo.Body{Data: []byte{1}}, nil)
 		done = true
 	}()
 	vfAtQuiescence(func() {
@@ -28,5 +30,149 @@ func H_C09_unary_race() {
 			vfAssert(err != nil && res == nil, "caller-failed")
 			vfReach("returned")
 		}
+	})
+}
+
+// H_C09_fail: the transport's read fails after `prefix` envelopes of the call's response
+// sequence. kind: 0 unary, 1 stream. timing: 0 the call is in flight (request written)
+// before any response/failure; 1 the call races with the failure (no ordering at all);
+// 2 the call starts after the failure was recorded. wfail: the write side fails too.
+func H_C09_fail() {
+	kind := vfParam("kind", 0)
+	timing := vfParam("timing", 0)
+	prefix := vfParam("prefix", 0)
+	wfail := vfParam("wfail", 0)
+	conn := newZZConn()
+	conn.wch = make(chan *goatorepo.Rpc, 8)
+	rm := NewRpcMultiplexer(conn)
+	val := vfByte("val")
+	vfAssume(val != 0) // the codec model has no 5-byte encoding of the zero message
+	// the full response sequence of the call (id 1)
+	var seq []*goatorepo.Rpc
+	if kind == 0 {
+		seq = []*goatorepo.Rpc{{Id: 1, Header: zzRespHdr(), Body: &goatorepo.Body{Data: []byte{val}}, Trailer: &goatorepo.Trailer{}}}
+	} else {
+		seq = []*goatorepo.Rpc{
+			{Id: 1, Header: zzRespHdr(), Body: &goatorepo.Body{Data: []byte{8, val, 0, 0, 0}}},
+			{Id: 1, Header: zzRespHdr(), Status: &goatorepo.ResponseStatus{Code: 0}, Trailer: &goatorepo.Trailer{}},
+		}
+	}
+	if prefix > len(seq) {
+		prefix = len(seq)
+	}
+	if timing != 0 {
+		prefix = 0 // responses are only meaningful once the request is known to be registered
+	}
+	go func() {
+		if timing == 0 {
+			<-conn.wch
+		}
+		for i := 0; i < prefix; i++ {
+			conn.in <- seq[i]
+		}
+		if wfail == 1 {
+			conn.mu.vfLock()
+			conn.failWrite = errors.New("write side down")
+			conn.mu.vfUnlock()
+		}
+		conn.rerr <- errors.New("connection reset")
+	}()
+	done := false
+	var uBody *goatorepo.Body
+	var uErr error
+	var got []int32
+	var termErr, hdrErr, sendErr, openErr error
+	go func() {
+		if timing == 2 {
+			<-rm.ctx.Done() // closeError has started; the next lock acquisition sees its result
+		}
+		if kind == 0 {
+			uBody, uErr = rm.CallUnaryMethod(context.Background(), zzHdr(), &goatorepo.Body{Data: []byte{7}}, nil)
+			done = true
+			return
+		}
+		id, rw, teardown, err := rm.NewStreamReadWriter(context.Background())
+		if err != nil {
+			openErr = err
+			done = true
+			return
+		}
+		// open envelope, as ClientConn.newStream does
+		if err := rw.Write(context.Background(), &goatorepo.Rpc{Id: id, Header: zzHdr()}); err != nil {
+			openErr = err
+			teardown()
+			done = true
+			return
+		}
+		cs := NewStream(context.Background(), id, "/s/m", rw, teardown, "c", "s", nil, time.Time{})
+		for {
+			out := new(testproto.Msg)
+			err := cs.RecvMsg(out)
+			if err != nil {
+				termErr = err
+				break
+			}
+			got = append(got, out.Value)
+			if len(got) > 3 {
+				vfFail("more-messages-than-delivered")
+				break
+			}
+		}
+		_, hdrErr = cs.Header()
+		sendErr = cs.SendMsg(&testproto.Msg{Value: 1})
+		_ = cs.Trailer()
+		done = true
+	}()
+	vfAtQuiescence(func() {
+		vfAssert(done, "every-call-returns")
+		if !done {
+			return
+		}
+		if kind == 0 {
+			if uErr == nil {
+				vfAssert(timing == 0 && prefix == 1, "no-fabricated-unary-success")
+				vfAssert(uBody != nil && len(uBody.Data) == 1 && uBody.Data[0] == val, "unary-result-is-the-delivered-reply")
+				vfReach("unary-success")
+			} else {
+				vfReach("unary-error")
+			}
+			if timing == 2 {
+				vfAssert(uErr != nil, "call-after-failure-fails")
+			}
+			if timing == 0 && prefix == 1 {
+				vfAssert(uErr == nil, "complete-response-is-returned")
+			}
+			return
+		}
+		if openErr != nil {
+			vfReach("stream-open-error")
+			vfAssert(timing != 0 || wfail == 1, "open-fails-only-after-failure")
+			return
+		}
+		if timing == 2 {
+			vfFail("stream-opened-after-failure")
+		}
+		if termErr == io.EOF {
+			vfAssert(timing == 0 && prefix == 2, "no-fabricated-stream-success")
+			vfReach("stream-success")
+		} else {
+			vfAssert(termErr != nil, "terminal-error-set")
+			vfReach("stream-error")
+		}
+		if timing == 0 && prefix == 2 {
+			vfAssert(termErr == io.EOF, "complete-stream-reports-EOF")
+		}
+		vfAssert(len(got) <= prefix, "no-fabricated-messages")
+		for _, g := range got {
+			vfAssert(g == int32(val), "message-content-as-delivered")
+		}
+		if timing == 0 && prefix >= 1 {
+			vfAssert(len(got) == 1, "delivered-message-is-received")
+			vfAssert(hdrErr == nil, "header-known-after-first-response")
+		}
+		if prefix == 0 {
+			vfAssert(hdrErr != nil, "header-fails-when-nothing-arrived")
+		}
+		vfAssert(sendErr != nil, "send-after-end-fails")
 	})
 }
